@@ -2,6 +2,7 @@ package main
 
 import (
 	"fmt"
+	"syscall"
 	"time"
 
 	"github.com/free5gc/go-upf/internal/verif/vh"
@@ -14,6 +15,8 @@ type c10URR struct {
 	MNOP   bool   `json:"mnop"`
 	Perio  bool   `json:"perio"`
 	Period uint32 `json:"period"`
+	// zombie: a Remove URR for it failed in the data plane - it lives on there and stays known to the session
+	zombie bool
 }
 
 type c10Sess struct {
@@ -33,6 +36,7 @@ type c10Op struct {
 	Per   uint32   `json:"period,omitempty"`
 	Rule  *vh.Rule `json:"rule,omitempty"`
 	PDR   uint64   `json:"pdr,omitempty"`
+	Fail  bool     `json:"fail,omitempty"` // the kernel refuses the DEL_URR of this step
 }
 
 // usage-report trigger bit with the same name as reporting-trigger bit b
@@ -258,8 +262,17 @@ func runC10(res *vh.Result) {
 				op.K = "rmurr"
 				u := pickURR()
 				op.URRs = []uint32{u}
+				op.Fail = rng.Chance(1, 3)
 				ops = append(ops, op)
+				if op.Fail {
+					k.SetFailCmd(vh.KCmdDelURR, syscall.ENOMEM)
+				}
 				modify(vh.Rule{Kind: "URR", ID: uint64(u)}.RemoveIE())
+				if op.Fail {
+					fs.Quiesce()
+					k.SetFailCmd(vh.KCmdDelURR, 0)
+					res.Count("refused_urr_removals", 1)
+				}
 			case r < 10:
 				op.K = "updurr"
 				u := pickURR()
@@ -436,6 +449,9 @@ func runC10(res *vh.Result) {
 						break
 					}
 				}
+				if known && u.zombie {
+					res.Count("reports_for_urrs_whose_removal_was_refused", 1)
+				}
 				if !known {
 					if match != nil {
 						viol("report-for-unknown", fmt.Sprintf("kernel report %d for session %#x URR %d (unknown session or URR) was forwarded", r.Serial, r.Key.SEID, r.Key.ID))
@@ -501,7 +517,13 @@ func runC10(res *vh.Result) {
 			// ---- model update ----
 			switch op.K {
 			case "rmurr":
-				delete(s.urr, op.URRs[0])
+				if op.Fail {
+					if u := s.urr[op.URRs[0]]; u != nil {
+						u.zombie = true
+					}
+				} else {
+					delete(s.urr, op.URRs[0])
+				}
 			case "rmpdr":
 				delete(s.pdr, op.PDR)
 			case "del":
